@@ -74,6 +74,9 @@ pub struct Params {
     /// the reader-writer lock queues new readers behind a waiting writer (the policy of the
     /// futex lock std uses on Linux) instead of letting them in (shuttle's own policy)
     pub wpref: bool,
+    /// C13: the disk is full when the first opener tries to allocate the new file (its open
+    /// fails, which is a legitimate outcome; the others must still be exclusive)
+    pub init_fault: bool,
 }
 
 impl Params {
@@ -97,6 +100,7 @@ impl Params {
                 clone_drop: false,
                 eintr_after: 0,
                 wpref: false,
+                init_fault: false,
             },
             "C10" => Params {
                 keys: r.range(6, 14) as u32,
@@ -112,6 +116,7 @@ impl Params {
                 clone_drop: false,
                 eintr_after: 0,
                 wpref: false,
+                init_fault: false,
             },
             "C09" => Params {
                 keys: 3,
@@ -127,6 +132,7 @@ impl Params {
                 clone_drop: false,
                 eintr_after: 0,
                 wpref: false,
+                init_fault: false,
             },
             _ => Params {
                 keys: 2,
@@ -142,15 +148,19 @@ impl Params {
                 clone_drop: r.chance(1, 2),
                 eintr_after: if r.chance(1, 4) { r.range(1, 6) as u32 } else { 0 },
                 wpref: false,
+                init_fault: false,
             },
         };
+        if prop == "C13" {
+            p.init_fault = !p.preexisting && Rng::new(mix(seed, 0x5C6)).chance(1, 3);
+        }
         p.wpref = wpref;
         p
     }
     pub fn to_json(&self) -> Value {
         json!({"keys": self.keys, "commits": self.commits, "readers": self.readers, "writers": self.writers, "rounds": self.rounds,
             "rereads": self.rereads, "grow": self.grow, "openers": self.openers, "preexisting": self.preexisting, "hold": self.hold,
-            "clone_drop": self.clone_drop, "eintr_after": self.eintr_after, "wpref": self.wpref})
+            "clone_drop": self.clone_drop, "eintr_after": self.eintr_after, "wpref": self.wpref, "init_fault": self.init_fault})
     }
     pub fn from_json(v: &Value) -> Option<Params> {
         let u = |k: &str| v.get(k).and_then(|x| x.as_u64()).map(|x| x as u32);
@@ -169,6 +179,7 @@ impl Params {
             clone_drop: b("clone_drop").unwrap_or(false),
             eintr_after: u("eintr_after").unwrap_or(0),
             wpref: b("wpref").unwrap_or(false),
+            init_fault: b("init_fault").unwrap_or(false),
         })
     }
 }
@@ -702,6 +713,8 @@ fn scenario_c13(p: Params, path: String) {
     // never get in, which is a legitimate outcome
     let interrupted: Arc<Mutex<Vec<u32>>> = Arc::new(Mutex::new(Vec::new()));
     simos::set_flock_eintr_after(p.eintr_after as u64);
+    simos::set_fail_first_extend(if p.init_fault { libc::ENOSPC } else { 0 });
+    let init_fault = p.init_fault;
     let mut hs = Vec::new();
     for o in 0..p.openers {
         let path = path.clone();
@@ -717,6 +730,13 @@ fn scenario_c13(p: Params, path: String) {
                 Ok(Ok(d)) => d,
                 Ok(Err(jammdb::Error::Io(e))) if eintr && e.kind() == std::io::ErrorKind::Interrupted => {
                     probe("open_interrupted_by_signal");
+                    interrupted.lock().unwrap().push(o);
+                    return;
+                }
+                Ok(Err(jammdb::Error::Io(e))) if init_fault && e.raw_os_error() == Some(libc::ENOSPC) => {
+                    // the disk was full when this opener tried to allocate the new file: it
+                    // reports the error and never gets in
+                    probe("open_failed_disk_full_at_creation");
                     interrupted.lock().unwrap().push(o);
                     return;
                 }
@@ -785,7 +805,13 @@ fn scenario_c13(p: Params, path: String) {
         }
     }
     simos::set_flock_eintr_after(0);
+    simos::set_fail_first_extend(0);
     let skipped: Vec<u32> = interrupted.lock().unwrap().clone();
+    if skipped.len() as u32 >= p.openers {
+        // nobody got in (every open was interrupted or met the full disk): nothing to verify
+        probe("no_opener_got_in");
+        return;
+    }
     // afterwards: every marker is there
     let r = catch(|| -> Result<(), String> {
         let db = OpenOptions::new().pagesize(1024).open(&path).map_err(|e| e.to_string())?;
